@@ -108,7 +108,8 @@ ALPHA = 'ab \n'
 SEARCH = ['a', 'b', 'ab', 'ba', '', ' ', 'a b', 'aa', 'b\n', 'q"r', "it's", 'x,y', '\\', 'é']
 FORMS = [(':-soup-contains(%s)', False), (':-soup-contains-own(%s)', True), (':contains(%s)', False),
          ('p:-soup-contains(%s)', False), (':not(:-soup-contains(%s))', None), (':-soup-contains(%s, "zz")', False),
-         (':-soup-contains-own("zz", %s)', True)]
+         (':-soup-contains-own("zz", %s)', True), (':-soup-contains-own(%s):-soup-contains(%s)', 'both'),
+         (':-soup-contains(%s):-soup-contains-own(%s)', 'both')]
 
 
 def _quote(s):
@@ -130,10 +131,12 @@ def contains_api_ok(ti: int) -> bool:
         ok = True
         for s in SEARCH:
             for form, own in FORMS:
-                c = sv.compile(form % _quote(s))
+                c = sv.compile(form.replace('%s', _quote(s)))
                 sel = set(id(e) for e in c.select(soup))
                 for el in rm.descendants(soup):
-                    if own is None:
+                    if own == 'both':
+                        exp = s in ref_text(el, xml) and any(s in node for node in ref_own(el, xml))
+                    elif own is None:
                         exp = s not in ref_text(el, xml)
                     elif own:
                         exp = any(s in node for node in ref_own(el, xml))
